@@ -57,10 +57,24 @@ def index_map(residues, model):
     return idx
 
 
+AFTER = "@after-whole-pipeline"
+_history = {"pipeline": False}
+
+
+def set_history(family):
+    """inputs of the '@after-whole-pipeline' families: the Structure3D object has already been through the whole pipeline
+    (interactions, secondary structure) when find_pairs is asked; what it returns must be what a fresh object gives"""
+    _history["pipeline"] = str(family or "").split(":")[0].endswith(AFTER)
+
+
 def real_pairs(residues, model):
     """('ok', [(i, j, lw)], missing) from the real code, indices into `residues`"""
     from rnapolis.annotator import find_pairs
     s = G.structure(residues)
+    if _history["pipeline"]:
+        from rnapolis.annotator import extract_base_interactions, extract_secondary_structure
+        call(extract_base_interactions, s, model)
+        call(extract_secondary_structure, s, model)
     if model is not None:
         # the same Structure3D object is first asked for every OTHER model it holds (what is returned for `model`
         # must not depend on earlier calls with another argument)
@@ -187,6 +201,12 @@ def build_inputs(ctx, res):
         inputs.append(("cut", [lo, hi], None))
         if rng.random() < 0.34:
             inputs.append(("cut-reversed", [hi, lo], None))
+        if rng.random() < 0.25 and (ri.auth is None or rj.auth is None or ri.auth.name != rj.auth.name) \
+                and (ri.label is None or rj.label is None or ri.label.name != rj.label.name) and (ri.icode or None) == (rj.icode or None):
+            # two different nucleotides at the same (chain, number, insertion code) - strands numbered alike in a file
+            # without chain identifiers; they differ in the residue name only, and neither is "lower" than the other
+            twin = G.rebuild(rj, relabel=(ri.chain, ri.number))
+            inputs.append(("cut-same-position", [ri, twin] if rng.random() < 0.5 else [twin, ri], None))
     n_place = ctx.pick(600, 20000)
     for tag, rs in G.placements(rng, templates, n_place):
         fam = "place:" + tag.split(":")[0].rstrip("+-.0123456789e")
@@ -213,7 +233,13 @@ def run(ctx):
     reqs = []
     where = []
     for k, (tag, rs, m) in enumerate(inputs):
+        if k % 6 == 3 and len(rs) <= 120:
+            fam, _, rest = tag.partition(":")
+            tag = fam + AFTER + (":" + rest if rest else "")
+            inputs[k] = (tag, rs, m)
+        set_history(tag)
         real = real_pairs(rs, m)
+        set_history(None)
         shown = model_residues(rs, m)
         reals.append(real)
         if real[0] != "ok":
@@ -335,6 +361,7 @@ def shrink(ctx, failure):
     rs = load_residues(inp["residues"])
     model = inp.get("model")
     sig = failure["signature"]
+    set_history(inp.get("family"))
     if not fails_with(ctx, rs, model, sig):
         return failure
     small = ddmin(rs, lambda sub: fails_with(ctx, sub, model, sig), max_steps=300)
@@ -362,6 +389,7 @@ def replay(ctx, data):
         return c03_loop.replay_loop(ctx, data)
     rs = load_residues(inp["residues"])
     model = inp.get("model")
+    set_history(inp.get("family"))
     real, v, m = evaluate(ctx.driver, rs, model)
     print("residues:", [r.full_name for r in rs])
     print("impl pairs (positions, LW):", real)
